@@ -283,6 +283,12 @@ class OPENQASMVisitor(Visitor):
             'BQSKit currently does not support barriers in gate declarations.',
         )
 
+    def ifstmt(self, tree: lark.Tree) -> None:
+        raise LangException(
+            'BQSKit currently does not support classically controlled'
+            ' operations (if statements).',
+        )
+
     def gate(self, tree: lark.Tree) -> None:
         """Apply a normal gate statement to the circuit."""
         # Parse parameters
@@ -670,10 +676,11 @@ class OPENQASMVisitor(Visitor):
             # List of ids, e.g. q, r, but without indices
             ids = []
             tree_iter = qlist
+            # idlist: ID | idlist "," ID -- the nested list comes first
             while len(tree_iter.children) == 2:
-                ids.append(str(tree_iter.children[0]))
-                tree_iter = tree_iter.children[1]
-            ids.append(str(tree_iter.children[0]))
+                ids.insert(0, str(tree_iter.children[1]))
+                tree_iter = tree_iter.children[0]
+            ids.insert(0, str(tree_iter.children[0]))
 
             out_idxs = []
             for qubit_id in ids:
